@@ -94,7 +94,7 @@ def main(run):
 
     lat = lattice.prec_lattice(tier)
     if tier == "quick":
-        items = [p for k, p in enumerate(lat) if p["family"] in ("F-edge", "F-setsym") or k % 12 == 0] + nav_programs() + ktree.generate(run.seed + 6100, 40)
+        items = [p for k, p in enumerate(lat) if p["family"] in ("F-edge", "F-setsym", "F-regress") or k % 12 == 0] + nav_programs() + ktree.generate(run.seed + 6100, 40)
         styles = ["separate-prompt+shuffle", "comments", "continuation", "everything", "macros", "macros+rsource"]
         cap = 24
     else:
